@@ -212,4 +212,13 @@ def step (c : Cfg) (s : State) (ins : Array BankIn) : State × Array BankOut :=
       fsm := fsm', dfi := dfi' }
   (s', outs)
 
+/-- the configuration conditions under which `C02.controller_dfi_legal` is proved, as an executable test
+(`C02.wf2Check_sound`: it implies the theorem's hypothesis `CtlInv.WF2`); the check evaluates it on every
+configuration it co-simulates and reports how many meet it -/
+def wf2Check (c : Cfg) : Bool :=
+  decide (1 ≤ c.nbm) && decide (c.nbm = 2 ^ (c.rankbits + c.bankbits)) && decide (11 ≤ c.bm.abits) && decide (c.bm.rowbits ≤ c.bm.abits) &&
+  decide (1 ≤ c.nphases) && decide (c.rdphase < c.nphases) && decide (c.wrphase < c.nphases) &&
+  decide (1 ≤ c.rf.tRP) && decide (1 ≤ c.rf.tRFC) && (match c.rf.tZQCS with | some z => decide (1 ≤ z) | none => true) &&
+  decide (11 ≤ c.rf.abits) && decide (1 ≤ c.rf.postponing) && decide (c.rf.tRP + c.rf.tRFC + 1 ≤ c.rf.tREFI)
+
 end Controller
